@@ -138,7 +138,7 @@ def gen_spec(rng, tier, dup_names=None, late_weights=False):
     if n_par:
         kinds += ["param"]
     if not lbfgs:
-        kinds += ["pideeponet"]
+        kinds += ["pideeponet", "hpcm"]
     conds = []
     don = None
     for i in range(n_conds):
@@ -167,6 +167,19 @@ def gen_spec(rng, tier, dup_names=None, late_weights=False):
             c.update(n_data=int(rng.integers(4, 10)), data_seed=int(rng.integers(0, 1000)), batch=int(rng.integers(2, 6)),
                      norm=int(rng.choice([2, 2, 1])), root=float(rng.choice([1.0, 1.0, 2.0])),
                      full=bool(rng.random() < 0.3))
+        elif kind == "hpcm":
+            if n_models < 2:
+                models.insert(1, _gen_model(rng, str(rng.choice(PLAIN_MODELS))))
+                n_models = 2
+                if don is not None:
+                    don += 1
+                    for q in conds:
+                        if q.get("kind") == "pideeponet":
+                            q["model"] = don
+            c["model"] = mi
+            c["corr_model"] = int((mi + 1) % n_models)
+            c.update(n_data=int(rng.integers(4, 10)), data_seed=int(rng.integers(0, 1000)), batch=int(rng.integers(2, 6)),
+                     norm=2, root=1.0, full=bool(rng.random() < 0.5))
         elif kind == "param":
             c["param"] = int(rng.integers(0, n_par))
             c["target"] = float(rng.choice([1.0, 0.5]))
@@ -248,11 +261,12 @@ def gen_spec(rng, tier, dup_names=None, late_weights=False):
         vals.append({"kind": "pideeponet", "model": don, "weight": 1.0, "res": "o_fit_x" if tg else "o_fit",
                      "track_gradients": tg, "sampler": _gen_sampler(rng)})
     # prune unused models / parameters and re-index
-    used_m = sorted({c["model"] for c in conds + vals if c.get("model") is not None})
+    used_m = sorted({c[q] for c in conds + vals for q in ("model", "corr_model") if c.get(q) is not None})
     mmap = {m: i for i, m in enumerate(used_m)}
     for c in conds + vals:
-        if c.get("model") is not None:
-            c["model"] = mmap[c["model"]]
+        for q in ("model", "corr_model"):
+            if c.get(q) is not None:
+                c[q] = mmap[c[q]]
     models = [models[m] for m in used_m]
     used_p = sorted({c["param"] for c in conds if c.get("param") is not None})
     pmap = {p: i for i, p in enumerate(used_p)}
